@@ -19,8 +19,8 @@ reg("C13", "simulations reproducible from their seed, conditioning honoured",
          "configuration is executed 5 times on freshly built inputs: reference, back-to-back, after unrelated use of the "
          "generator, in a pristine process forked before the worker touched the library, and with another seed; outputs "
          "are compared bit for bit ('differs' is only asserted on continuous outputs: not on facies maps, for Gibbs on "
-         "unconstrained samples, and for turning bands only with a nugget, >= 30 bands or structures spread by continuous band processes; for Gibbs on "
-         "unconstrained samples). On the reference run: number of created columns, simulation ranks i != j differ, data "
+         "unconstrained samples, and for turning bands only with a nugget, >= 30 bands or structures spread by continuous band processes"
+         "). On the reference run: number of created columns, simulation ranks i != j differ, data "
          "honoured at coinciding targets (1e-5 relative), |S - K| <= 50 sK + 1e-4 scale against a long-double reference "
          "(co)kriging (targets 2e-4 away from a datum make this sharp; unique neighbourhood, nbtuba >= 10, only models whose "
          "structures are simulated by smooth band processes: gaussian, cubic, sincard, besselj), every Gibbs / "
